@@ -1,6 +1,6 @@
 import os
 SOLVER = os.environ.get("C15_SOLVER", "cadical")
-KF = {} if os.environ.get("C15_NO_KF") else {}
+KF = {} if os.environ.get("C15_NO_KF") else {"KF_DNS_OPT_RCODE_VERSION_ORDER": None, "KF_RADIUS_ADD_PASSWORD": None}
 
 META = {"bounds": "", "outside": "", "assumptions": [], "harness_functions": []}
 
@@ -24,7 +24,19 @@ def dns_job(name, ops, short=False, timeout=None):
     defs.update(KF)
     desc = " ".join("%s(name labels %s%s)" % (op, "+".join(str(l) for l in ls if l) or "root",
                                               ", rdata %d" % rd if op != "Q" else "") for op, ls, rd in ops)
-    j = {"name": "dns-" + name, "src": "dns.c", "defs": defs, "unwind": 16, "solver": SOLVER,
+    nsec = {s: sum(1 for op, _, _ in ops if op in s) for s in ("Q", "R", "N", "AO")}
+    maxlab = max([len([l for l in ls if l]) for _, ls, _ in ops] + [0])
+    maxname = max([sum(l + 1 for l in ls if l) + 1 for _, ls, _ in ops] + [1])
+    j = {"name": "dns-" + name, "src": "dns.c", "defs": defs, "unwind": cap + 66, "solver": SOLVER,
+         # dns_msg_sequence_of_labels2name computes max_pos = cur_pos + msg_size (beyond the object, DESIGN 7 #5): only the
+         # relational use of that pointer is excluded here; memory safety of the DNS parsers is C13's obligation
+         "prop_exclude": "pointer relation",
+         # loops whose trip count comes from message bytes (header counters, label lengths): true bounds from the shape,
+         # confirmed by the unwinding assertions
+         "unwindset": ["dns_msg_info_get.0:%d" % (nsec["Q"] + 2), "dns_msg_info_get.1:%d" % (nsec["R"] + 2),
+                       "dns_msg_info_get.2:%d" % (nsec["N"] + 2), "dns_msg_info_get.3:%d" % (nsec["AO"] + 2),
+                       "SequenceOfLabelsGetSize.0:%d" % (maxlab + 2), "dns_msg_sequence_of_labels2name.0:%d" % (maxlab + 2),
+                       "DomainNameToSequenceOfLabels.0:%d" % (maxlab + 2), "memchr.0:%d" % (maxname + 2)],
          "shape": "header + %s into a %d-byte buffer (%s)" % (desc, cap, "one byte short" if short else "exact size"),
          "desc": "message byte-identical to RFC 1035 4.1 reference encoder; validate/info_get/question_get_data/rr_get_data "
                  "return the same names, types, classes, TTLs, data; header counters = successful adds"
@@ -64,5 +76,132 @@ def dns_jobs(tier):
     return out
 
 
+def dnsname_jobs(tier):
+    out = []
+    shapes = [((1,), 0), ((3, 2), 0), ((63,), 0), ((64,), 0), ((62, 1), 0), ((1, 64), 0), ((2, 2, 2), 0), ((3, 2), -1), ((63, 1), -1)]
+    if tier != "quick":
+        shapes += [((63, 63), 0), ((1, 1, 65), 0), ((10, 20, 30), 0), ((5,), -3)]
+    for ls, d in shapes:
+        ls3 = tuple(ls) + (0,) * (3 - len(ls))
+        nlen = sum(ls) + len(ls) - 1
+        bufsz = nlen + 2 + d
+        out.append({"name": "dnsname-%s%s" % (".".join(str(l) for l in ls), "" if d == 0 else "-cap%d" % d), "src": "dnsname.c",
+                    "defs": {"LA": ls3[0], "LB": ls3[1], "LC": ls3[2], "BUFSZ": bufsz}, "unwind": nlen + 4, "solver": SOLVER,
+                    "unwindset": ["DomainNameToSequenceOfLabels.0:%d" % (len(ls) + 2), "SequenceOfLabelsGetSize.0:%d" % (len(ls) + 2),
+                                  "SequenceOfLabelsToDomainName.0:%d" % (len(ls) + 2)],
+                    "shape": "host name with labels of %s bytes, output capacity %d (needed %d)" % ("+".join(map(str, ls)), bufsz, nlen + 2),
+                    "desc": "DomainNameToSequenceOfLabels = RFC 1035 label sequence (or EINVAL for a label > 63, EOVERFLOW for a short "
+                            "buffer); SequenceOfLabelsGetSize / SequenceOfLabelsToDomainName invert it"})
+    return out
+
+
+# ------------------------------------------------------------------ RADIUS
+def enclen(pw):
+    return 16 if pw == 0 else ((pw + 15) // 16) * 16
+
+
+def rad_job(name, mode, keylen=3, code=1, al=2, als=(), types=(), pwlen=0, addma=0, short=0, corrupt=None, timeout=None, mem_gb=None):
+    defs = {"RMODE": mode, "KEYLEN": keylen}
+    if mode == 1:
+        defs["NA"] = len(als)
+        defs["CODE"] = code
+        for i, a in enumerate(als, 1):
+            defs["AL%d" % i] = a
+            defs["T%d" % i] = types[i - 1]
+        pcap = 20 + sum(2 + a for a in als) - short
+        shape = "init(code %d) + attribute types %s with data lengths %s (symbolic data) into a %d-byte buffer%s" % (
+            code, list(types), list(als), pcap, " (one byte short)" if short else " (exact)")
+        desc = "attr_add accepts iff the RFC length rule of the type holds (EOVERFLOW if it does not fit); packet bytes = RFC 2865 3 " \
+               "layout; radius_pkt_chk accepts; get_data_ptr / attr_find list the same attributes"
+    elif mode == 2:
+        pcap = 20
+        defs["PWLEN"] = pwlen
+        if short:
+            defs["SHORT"] = 1
+        shape = "password of %d bytes, secret of %d bytes, output buffer %s" % (pwlen, keylen, "one byte short" if short else "exact (%d)" % enclen(pwlen))
+        desc = "password_encode = RFC 2865 5.2 chain over the abstract hash; decode(encode(pw)) = pw NUL-padded; reported lengths"
+    elif mode in (3, 4):
+        pcap = 20 + 2 + al + (18 if mode == 4 else 0)
+        defs.update({"CODE": code, "AL": al})
+        shape = "packet code %d, one attribute of %d data bytes%s, secret %d bytes; then one symbolic byte (symbolic position) modified" % (
+            code, al, " + Message-Authenticator" if mode == 4 else "", keylen)
+        desc = ("authenticator_calc/update/chk = RFC 2865 3 / 2866 3 MD5 construction; after a modification chk accepts iff stored = recomputed"
+                if mode == 3 else "msg_authenticator_calc/update/chk = RFC 2869 5.14 HMAC construction; after a modification accepts iff stored = recomputed")
+    elif mode == 5:
+        pcap = 20 + 2 + al + 2 + enclen(pwlen) + (18 if addma else 0)
+        defs.update({"AL": al, "PWLEN": pwlen, "ADDMA": addma})
+        shape = "Access-Request: User-Name %d bytes, User-Password %d bytes, %s Message-Authenticator, secret %d bytes, buffer exact (%d)" % (
+            al, pwlen, "with" if addma else "without", keylen, pcap)
+        desc = "radius_pkt_sign output byte-identical to the RFC reference; radius_pkt_chk and radius_pkt_verify accept; password restored"
+    else:
+        pcap = 20 + 2 + al + (18 if addma else 0)
+        defs.update({"CODE": code, "AL": al, "ADDMA": addma})
+        if corrupt is not None:
+            defs["CORRUPT"] = corrupt
+        shape = "packet code %d (%s), one attribute of %d bytes, %s Message-Authenticator, secret %d bytes, buffer exact (%d)%s" % (
+            code, "reply to a request" if code in (2, 3, 5, 11, 41, 42, 44, 45) else "request with computed authenticator", al,
+            "with" if addma else "without", keylen, pcap, "" if corrupt is None else ", then byte %d xor symbolic non-zero value" % corrupt)
+        desc = "radius_pkt_sign output byte-identical to the RFC reference (Response/Request Authenticator, Message-Authenticator); " \
+               "verify accepts; after a one-byte modification verify accepts iff the RFC recomputations equal the stored values"
+    defs["PCAP"] = pcap
+    defs["AH_MAX"] = max(40, pcap + keylen + 4)
+    defs["AH_NENT"] = 16
+    defs.update(KF)
+    j = {"name": "rad-" + name, "src": "radius.c", "defs": defs, "unwind": max(pcap, 16, enclen(pwlen)) + keylen + 8, "solver": SOLVER,
+         "shape": shape, "desc": desc}
+    if timeout:
+        j["timeout"] = timeout
+    if mem_gb:
+        j["mem_gb"] = mem_gb
+    return j
+
+
+def rad_jobs(tier):
+    q = tier == "quick"
+    out = []
+    # attributes
+    # (type, data length) pairs: RFC 2865 conforming and non-conforming lengths of string / address / integer / fixed types
+    A = [("name-addr", (1, 4), (1, 4)), ("chap-17", (3,), (17,)), ("chap-16", (3,), (16,)), ("addr-3", (4,), (3,)),
+         ("int-5", (6,), (5,)), ("name-0", (1,), (0,)), ("three", (1, 5, 1), (4, 4, 1)), ("vsa-4-5", (26, 26), (4, 5)),
+         ("state-class", (24, 25), (1, 2)), ("chal-4-5", (60, 60), (4, 5)), ("dup-type", (18, 18, 32), (1, 2, 1))]
+    if not q:
+        A += [("long", (1,), (253,)), ("ints", (5, 6, 7), (4, 4, 4)), ("addrs", (4, 8, 9), (4, 4, 4)), ("mixed-bad", (1, 4, 18), (2, 5, 3)),
+              ("t27-61", (27, 61), (4, 4)), ("t11-33", (11, 33), (3, 3))]
+    for i, (n, ts, ls) in enumerate(A):
+        out.append(rad_job("attr-" + n, 1, types=ts, als=ls, code=[1, 2, 4, 5, 11, 12, 40, 43, 3][i % 9]))
+    out.append(rad_job("attr-badcode", 1, types=(1,), als=(1,), code=6))
+    out.append(rad_job("attr-short", 1, types=(1, 4), als=(3, 4), short=1))
+    # password
+    for pw in [0, 1, 15, 16, 17, 32, 33]:
+        out.append(rad_job("pw-%d" % pw, 2, pwlen=pw))
+    out.append(rad_job("pw-17-short", 2, pwlen=17, short=1))
+    out.append(rad_job("pw-16-key0", 2, pwlen=16, keylen=0))
+    # authenticators, one code per class in quick
+    codes = [1, 4, 2] if q else [1, 12, 4, 40, 43, 2, 3, 5, 11, 41, 42, 44, 45]
+    for c in codes:
+        out.append(rad_job("auth-c%d" % c, 3, code=c, al=2))
+        out.append(rad_job("ma-c%d" % c, 4, code=c, al=2))
+    # sign / verify
+    out.append(rad_job("sign-req-pw0", 5, al=2, pwlen=0, addma=1))
+    out.append(rad_job("sign-req-pw5-noma", 5, al=1, pwlen=5, addma=0))
+    out.append(rad_job("sign-req-pw17", 5, al=1, pwlen=17, addma=1))
+    for c in ([2, 4] if q else [2, 3, 5, 11, 41, 42, 44, 45, 4, 40, 43]):
+        out.append(rad_job("sign-c%d" % c, 6, code=c, al=2, addma=1))
+    out.append(rad_job("sign-c2-noma", 6, code=2, al=3, addma=0))
+    # corruption: one concrete offset per region in quick, every non-structural offset in thorough
+    pcap = 20 + 4 + 18
+    struct = {2, 3, 20, 21, 24, 25}
+    offs = [1, 4, 19, 22, 26, 41] if q else [o for o in range(0, pcap) if o not in struct and o != 0]
+    for o in offs:
+        out.append(rad_job("corrupt-c2-o%d" % o, 6, code=2, al=2, addma=1, corrupt=o))
+    if not q:
+        for o in [1, 4, 22, 26]:
+            out.append(rad_job("corrupt-c4-o%d" % o, 6, code=4, al=2, addma=1, corrupt=o))
+        out.append(rad_job("sign-req-pw33", 5, al=1, pwlen=33, addma=1))
+        out.append(rad_job("pw-48", 2, pwlen=48))
+        out.append(rad_job("pw-16-key8", 2, pwlen=16, keylen=8))
+    return out
+
+
 def jobs(tier):
-    return dns_jobs(tier)
+    return dns_jobs(tier) + dnsname_jobs(tier) + rad_jobs(tier)
